@@ -26,6 +26,7 @@ CHECKS = {
     "C20": "checks.c20",
     "C14": "checks.c14",
     "C16": "checks.c16",
+    "C18": "checks.c18",
     "C19": "checks.c19",
     "C06": "checks.c06",
     "C08": "checks.c08",
